@@ -136,7 +136,7 @@ def case_split_file(c):
     hdr = S.default_header(nchans, fch1, foff, TSAMP, tstart=TSTART, source_name='SPLITSRC')
     pay = _payload(c['seed'], NINTS, nchans)
     wd = engine.workdir()
-    path = os.path.join(wd, 'c19_src.fil')
+    path = os.path.join(wd, 'c19_src_%s.fil' % engine.sha(c)[:12])     # own name per case: what is remembered per file name is this case's own history
     # file-side history, made deterministic: the SAME path first holds another observation (more channels, other band and
     # orientation), which is split once; then the file under test is written over it.  Whatever the library keeps per
     # file name must describe the file that is on disk when it is asked.
